@@ -324,6 +324,11 @@ func (c *c16run) violate(sig, desc string, in c16input) {
 		fmt.Printf("REPLAY-VIOLATION property=C16 sig=%s\n  %s\n", sig, desc)
 	}
 	c.res.ViolateInput(sig, desc, in)
+	for i := range c.res.Violations { // the merge keeps the cheapest = shortest counterexample of a signature
+		if c.res.Violations[i].Sig == sig && c.res.Violations[i].Cost == 0 {
+			c.res.Violations[i].Cost = in.Len + in.Header + 1
+		}
+	}
 }
 
 func c16short(b []byte) string {
